@@ -17,11 +17,29 @@ NWORK = max(2, min(8, (os.cpu_count() or 4) // 2))
 
 
 def hx(s):
-    return "".join("%02x" % ord(c) for c in s)
+    """the text as the hex of its UTF-8 bytes (the files of the protocol are byte strings)"""
+    return s.encode("utf-8").hex()
 
 
 def unhx(h):
-    return "".join(chr(int(h[i:i + 2], 16)) for i in range(0, len(h), 2))
+    return bytes.fromhex(h).decode("utf-8")
+
+
+def blen(s):
+    return len(s.encode("utf-8"))
+
+
+# what each case kind exercises (goes into the evidence)
+LAYERS = {
+    "C": "lib/rio.c hawk_rtx_readio + run.c read_record over a custom console handler serving CHARACTERS in given chunks (X = all 2^(n-1) character chunkings)",
+    "B": "lib/rio.c hawk_rtx_readiobytes (getbline) over a custom console handler serving BYTES in given chunks (Y = all byte chunkings)",
+    "F": "lib/std.c console chain + lib/sio.c/tio.c (UTF-8 decoding, 2048-byte read buffer) over real temporary files; read boundaries are those of read(2) on a file",
+    "G": "as F, read with getbline (hawk_sio_getbchars / hawk_rtx_readiobytes)",
+    "P": "lib/std.c console + lib/sio.c/tio.c reading standard input = a real pipe fed by a writer thread: each read(2) returns exactly one chunk of the given BYTE chunking (Z = all 2^(n-1) byte chunkings)",
+    "Q": "as P, read with getbline",
+}
+STD_KINDS = "FGPQZ"          # the chunking seen by rio.c is decided by sio/tio: in.pos/len are not compared with the model
+BYTECUT_KINDS = "BYGQPZF"    # cut positions count bytes, not characters
 
 
 # mode token -> (description, python regex of a separator for the coverage measure, stable?)
@@ -32,6 +50,7 @@ def rmode(rs, ast):
 M_D = "D"
 M_SB = "S62"
 M_SNL = "S0a"
+M_SE = "Sc3a9"                     # RS is the two-byte character U+00E9 (character kinds only)
 M_P0 = "P0"
 M_P1 = "P1"
 M_AB = rmode("ab", ".,c61,c62")
@@ -41,7 +60,7 @@ M_NLNL = rmode("\n\n+", ".,c0a,+,c0a")
 M_EOL = rmode("xab$|a", "|,.,.,.,c78,c61,c62,$,c61")
 M_ALTLONG = rmode("abcde|b", "|,.,.,.,.,c61,c62,c63,c64,c65,c62")
 
-SEP_RE = {M_D: r"\r?\n", M_SB: "b", M_SNL: "\n", M_P0: r"\n(\r?\n)+", M_P1: r"\n(\r?\n)+", M_AB: "ab", M_APLUS: "a+",
+SEP_RE = {M_D: r"\r?\n", M_SB: "b", M_SNL: "\n", M_SE: "\u00e9", M_P0: r"\n(\r?\n)+", M_P1: r"\n(\r?\n)+", M_AB: "ab", M_APLUS: "a+",
           M_ABCD: "ab(cd)?", M_NLNL: "\n\n+", M_EOL: "xab$|a", M_ALTLONG: "abcde|b"}
 UNSTABLE = {M_ABCD, M_EOL, M_ALTLONG}          # patterns whose match can change when text is appended
 STABLE_MODES = [M_D, M_SB, M_SNL, M_P0, M_P1, M_AB, M_APLUS, M_NLNL]
@@ -74,7 +93,10 @@ def norm_cuts(cuts, n, maxchunk=2048):
 
 
 def case_line(kind, mode, files):
-    """files: list of (name, content, cuts)"""
+    """files: list of (name, content, cuts); cuts count characters for C/X and bytes for the other kinds; no chunk may be larger
+    than the 2048 units the custom handler is asked for (for the std kinds the reader's own buffer does that)"""
+    if kind in BYTECUT_KINDS:
+        return "%s %s %s" % (kind, mode, " ".join(fileword(n, s, norm_cuts(c, blen(s), 2048 if kind in "BY" else 1 << 30)) for n, s, c in files))
     return "%s %s %s" % (kind, mode, " ".join(fileword(n, s, norm_cuts(c, len(s))) for n, s, c in files))
 
 
@@ -115,6 +137,25 @@ def exhaustive_lines(tier):
                     continue
                 seen.add((mode, s))
                 out.append("X %s =%s/" % (mode, hx(s)))
+    # single-character RS that is a two-byte character, through the character handler
+    for n in range(0, (5 if q else 7) + 1):
+        for t in itertools.product("a\u00e9\n", repeat=n):
+            out.append("X %s =%s/" % (M_SE, hx("".join(t))))
+    # byte layer: ALL byte chunkings of short UTF-8 texts through std.c + sio/tio reading a pipe (one read(2) per chunk);
+    # 2- and 3-byte characters are split at every phase
+    zplan = [(M_D, ["a", "\u00e9", "\u20ac", "\n"], 6 if q else 8), (M_D, ["\u00e9", "\r", "\n"], 5 if q else 7),
+             (M_SE, ["a", "\u00e9", "\u20ac", "\n"], 5 if q else 7), (M_P0, ["a", "\u00e9", "\n"], 5 if q else 8),
+             (M_P1, ["\u20ac", "\r", "\n"], 5 if q else 7), (M_AB, ["a", "b", "\u00e9"], 5 if q else 7), (M_SB, ["b", "\u20ac"], 6 if q else 8),
+             (M_APLUS, ["a", "\u00e9"], 5 if q else 8), (M_NLNL, ["\u00e9", "\n"], 5 if q else 8)]
+    seenz = set()
+    for mode, alpha, maxbytes in zplan:
+        for n in range(0, maxbytes + 1):
+            for t in itertools.product(alpha, repeat=n):
+                s = "".join(t)
+                if blen(s) > maxbytes or (mode, s) in seenz:
+                    continue
+                seenz.add((mode, s))
+                out.append("Z %s =%s/" % (mode, hx(s)))
     # the same through hawk_rtx_readiobytes (getbline), shorter bounds
     yplan = [(M_D, "a\r\n", 5 if q else 6), (M_P0, "a\r\n", 5 if q else 6), (M_P1, "a\r\n", 4 if q else 5), (M_SB, "ab", 5 if q else 7),
              (M_AB, "abx", 4 if q else 6), (M_APLUS, "ax", 5 if q else 7), (M_ABCD, "abcd", 4 if q else 5)]
@@ -126,7 +167,7 @@ def exhaustive_lines(tier):
 
 
 def sep_sample(rng, mode):
-    return {M_D: ["\n", "\r\n", "\r\n", "\n"], M_SB: ["b"], M_SNL: ["\n"], M_P0: ["\n\n", "\n\n\n", "\r\n\r\n", "\n\r\n", "\n"],
+    return {M_D: ["\n", "\r\n", "\r\n", "\n"], M_SB: ["b"], M_SNL: ["\n"], M_SE: ["\u00e9"], M_P0: ["\n\n", "\n\n\n", "\r\n\r\n", "\n\r\n", "\n"],
             M_P1: ["\n\n", "\n\n\n", "\r\n\r\n", "\n\r\n", "\n", "\r\n"], M_AB: ["ab"], M_APLUS: ["a", "aa", "aaaa"],
             M_ABCD: ["ab", "abcd", "abc"], M_NLNL: ["\n\n", "\n\n\n\n", "\n"], M_EOL: ["a", "xab"], M_ALTLONG: ["b", "abcde", "abcd"]}[mode]
 
@@ -191,11 +232,91 @@ def long_cases(rng, tier, allmodes):
     return groups
 
 
+NONASCII = ["\u00e9", "\u00fc", "\u20ac", "\u4f60"]       # 2, 2, 3, 3 bytes in UTF-8
+CHAR_ONLY_MODES = {M_SE}                                   # RS is not ASCII: splitting bytes and splitting characters differ
+
+
+def straddle_text(rng, mode, ch, lead, edge, total):
+    """text whose character `ch` (2 or 3 bytes) begins `lead` bytes before byte offset `edge`, with records before and many short
+    records after it (up to `total` bytes), multi-byte characters sprinkled everywhere so that later read boundaries are hit too"""
+    seps = sep_sample(rng, mode)
+    asc = "xyz" if (is_regex(mode) or mode in (M_SB, M_SE)) else "axyz"
+    wide = [c for c in NONASCII if not (mode == M_SE and c == "\u00e9")]
+
+    def filler(nbytes):
+        out, n = [], 0
+        while n < nbytes:
+            c = rng.choice(wide) if (rng.random() < 0.2 and nbytes - n >= 3) else rng.choice(asc)
+            out.append(c)
+            n += blen(c)
+        return "".join(out)
+    parts, n = [], 0
+    target = edge - lead
+    while n < target:
+        room = target - n
+        sep = rng.choice(seps)
+        ln = rng.choice([0, 1, 5, 40, 300])
+        if ln + blen(sep) + 8 >= room:          # last stretch before the character: plain filler of the exact size
+            f = filler(room)
+            while blen(f) != room:
+                f = filler(room)
+            parts.append(f)
+            n += room
+            break
+        f = filler(ln)
+        parts += [f, sep]
+        n += blen(f) + blen(sep)
+    parts.append(ch)
+    n += blen(ch)
+    while n < total:
+        f = filler(rng.choice([0, 1, 1, 2, 3, 7, 30]))
+        sep = rng.choice(seps)
+        parts += [f, sep]
+        n += blen(f) + blen(sep)
+    if rng.random() < 0.5:
+        parts.append(filler(rng.choice([1, 4])))
+    return "".join(parts)
+
+
+def straddle_cases(rng, tier):
+    """groups of lines carrying the same bytes: a 2- or 3-byte character straddles the end of a 2048-byte read of the real file
+    at every phase; read as a file, through a pipe in several byte schedules, through the character handler, and with getbline"""
+    q = tier == "quick"
+    modes = [M_D, M_SB, M_SE, M_P0, M_AB] if q else STABLE_MODES + [M_SE]
+    phases = [("\u00e9", 1), ("\u20ac", 1), ("\u20ac", 2)]
+    groups = []
+    for mode in modes:
+        for rep in range(1 if q else 3):
+            for ch, lead in phases:
+                if mode == M_SE and ch == "\u00e9":
+                    ch = "\u00fc"
+                edge = 2048 if (q or rep < 2) else 4096
+                text = straddle_text(rng, mode, ch, lead, edge, edge + 2048 + rng.choice([300, 900, 2500]))
+                nb = blen(text)
+                # byte offsets strictly inside multi-byte characters
+                inside, pos = [], 0
+                for c in text:
+                    w = blen(c)
+                    inside += [pos + d for d in range(1, w)]
+                    pos += w
+                g = [case_line("F", mode, [("f1", text, [])]),
+                     case_line("P", mode, [("", text, [])]),                                    # one big write: the reader's 2048-byte reads
+                     case_line("P", mode, [("", text, [c for c in inside if rng.random() < 0.5])]),  # short reads ending inside characters
+                     case_line("P", mode, [("", text, list(range(rng.choice([3, 7, 64, 1000, 2047]), nb, rng.choice([3, 7, 64, 1000, 2047]))))]),
+                     case_line("C", mode, [("", text, [c for c in range(1, len(text)) if rng.random() < 0.01])])]
+                if not q:
+                    g.append(case_line("P", mode, [("", text, list(range(1, nb)))]))         # one byte per read
+                if mode not in CHAR_ONLY_MODES:
+                    g += [case_line("G", mode, [("f1", text, [])]), case_line("Q", mode, [("", text, [c for c in inside if rng.random() < 0.5])])]
+                groups.append((mode, g))
+    return groups
+
+
 def small_text(rng, mode, trailing):
     seps = sep_sample(rng, mode)
     parts = []
     for _ in range(rng.randrange(0, 4)):
-        parts.append("".join(rng.choice("axyz" if is_regex(mode) else "ab\r") for _ in range(rng.randrange(0, 4))))
+        parts.append("".join(rng.choice("axyz\u00fc\u20ac" if is_regex(mode) else "ab\r\u00fc\u20ac") for _ in range(rng.randrange(0, 4))))
         parts.append(rng.choice(seps))
     if not trailing:
         parts.append("".join(rng.choice("xyz") for _ in range(rng.randrange(1, 4))))
@@ -221,13 +342,13 @@ def multifile_cases(rng, tier):
     ]
     cases = list(fixed)
     for _ in range(n):
-        mode = rng.choice(STABLE_MODES)
+        mode = rng.choice(STABLE_MODES + [M_SE])
         k = rng.randrange(1, 5)
         cases.append((mode, [("f%d" % (i + 1), small_text(rng, mode, rng.random() < 0.5)) for i in range(k)]))
     for mode, fs in cases:
         cl = case_line("C", mode, [(nm, s, [c for c in range(1, len(s)) if rng.random() < 0.4]) for nm, s in fs])
         fl = case_line("F", mode, [(nm, s, []) for nm, s in fs])
-        bl = "B" + cl[1:]                                                      # same files and cuts, read as bytes
+        bl = ("C" if mode in CHAR_ONLY_MODES else "B") + cl[1:]                # same files and cuts, read as bytes
         singles = [case_line("F", mode, [(nm, s, [])]) for nm, s in fs]
         out.append((mode, cl, fl, bl, singles))
     return out
@@ -284,6 +405,11 @@ def records_only(outline):
     return " ".join(recs)
 
 
+def records_nofn(outline):
+    """records_only without FILENAME: for comparing the same bytes read as a named file and as standard input"""
+    return re.sub(r"(r\d+:\d+:)[^: ]*:", r"\1:", records_only(outline))
+
+
 def mask_state(outline):
     return re.sub(r":\d+:\d+:[01](?= |$)", ":*", outline)
 
@@ -293,76 +419,110 @@ def cuts_of_mask(n, mask):
 
 
 def is_multi(line):
-    return line[0] in "XY"
+    return line[0] in "XYZ"
+
+
+EXPAND = {"X": "C", "Y": "B", "Z": "P"}
+
+
+def units(kind, s):
+    return blen(s) if kind in BYTECUT_KINDS else len(s)
 
 
 def expand_x(line, mask):
     kind, mode, files = parse_case(line)
     name, s, _ = files[0]
-    return case_line("C" if kind == "X" else "B", mode, [(name, s, cuts_of_mask(len(s), mask))])
+    return case_line(EXPAND[kind], mode, [(name, s, cuts_of_mask(units(kind, s), mask))])
 
 
 def nmasks(line):
-    n = len(parse_case(line)[2][0][1])
-    return 1 << max(0, n - 1)
+    kind, _, files = parse_case(line)
+    return 1 << max(0, units(kind, files[0][1]) - 1)
+
+
+def canon(line, outs):
+    """what is compared with the model: everything, except in.pos/len/eof for the kinds where sio decides the chunking"""
+    return [mask_state(x) for x in outs] if line[0] in STD_KINDS else list(outs)
 
 
 # ---------------------------------------------------------------------------------------------------------------
 # shrinking one C/F case
 # ---------------------------------------------------------------------------------------------------------------
-def to_items(files):
+def to_items(files, bytecut=False):
+    """characters and cut markers; for byte cuts a marker carries its offset into the following character (0 = before it)"""
     items = []
     for fi, (name, s, cuts) in enumerate(files):
         cs = set(cuts)
-        for i, ch in enumerate(s):
-            if i in cs:
-                items.append(("cut", fi, None))
+        pos = 0
+        for ch in s:
+            w = blen(ch) if bytecut else 1
+            for d in range(w):
+                if pos + d in cs:
+                    items.append(("cut", fi, d))
             items.append(("ch", fi, ch))
+            pos += w
     return items
 
 
-def from_items(files, items):
+def from_items(files, items, bytecut=False):
     out = []
     for fi, (name, _, _) in enumerate(files):
         s = []
         cuts = []
+        pos = 0
+        pending = []
         for kind, f, ch in items:
             if f != fi:
                 continue
             if kind == "cut":
-                cuts.append(len(s))
+                pending.append(ch)
             else:
+                w = blen(ch) if bytecut else 1
+                cuts += [pos + (d if d < w else 0) for d in pending]
+                pending = []
                 s.append(ch)
-        out.append((name, "".join(s), cuts))
+                pos += w
+        out.append((name, "".join(s), sorted(set(cuts))))
     return out
 
 
 def shrink_case(line, fails, max_tests=160):
     kind, mode, files = parse_case(line)
-    items = to_items(files)
+    bc = kind in BYTECUT_KINDS
+    items = to_items(files, bc)
 
     def f(sub):
-        return fails(case_line(kind, mode, from_items(files, sub)))
+        return fails(case_line(kind, mode, from_items(files, sub, bc)))
     if not items:
         return line
     small = C.ddmin(items, f, max_tests=max_tests)
-    cand = case_line(kind, mode, from_items(files, small))
+    cand = case_line(kind, mode, from_items(files, small, bc))
     return cand if fails(cand) else line
 
 
 # ---------------------------------------------------------------------------------------------------------------
 def coverage_x(line):
-    """how many of the 2^(n-1) chunkings of an X line have a chunk edge inside or next to a separator occurrence"""
-    _, mode, files = parse_case(line)
+    """how many of the 2^(n-1) chunkings of an exhaustive line have a chunk edge inside or next to a separator occurrence, or
+    (byte chunkings) strictly inside a multi-byte character"""
+    kind, mode, files = parse_case(line)
     s = files[0][1]
-    n = len(s)
+    bc = kind in BYTECUT_KINDS
+    offs, pos = [], 0                      # unit offset of every character
+    for c in s:
+        offs.append(pos)
+        pos += blen(c) if bc else 1
+    offs.append(pos)
+    n = pos
     if n < 2:
         return 0
     near = set()
     for m in re.finditer(SEP_RE[mode], s):
-        for p in range(m.start(), m.end() + 1):
+        for p in range(offs[m.start()], offs[m.end()] + 1):
             if 0 < p < n:
                 near.add(p)
+    for i in range(len(s)):
+        for p in range(offs[i] + 1, offs[i + 1]):
+            near.add(p)
     k = len(near)
     return (1 << (n - 1)) - (1 << (n - 1 - k))
 
@@ -454,37 +614,51 @@ def run(ctx):
             oracle_hits.append((None, "%s while reading records (%s)" % (st, where),
                                 "# harness status %s\n%s\n%s" % (st, bad or "\n".join(l[:400] for l in lines[:3]), ce[-2500:])))
 
+    def layer_of(*lines):
+        return "std" if any(l[0] in STD_KINDS for l in lines) else "rio"
+
     def oracle_chunkdep(mode, la, lb):
-        """same bytes, two chunkings, different records on the real code"""
-        key = ("chunkdep", mode)
+        """same bytes, two schedules (chunkings and/or reading paths), different records on the real code"""
+        key = ("chunkdep", layer_of(la, lb), mode)
         if key in hit_keys:
             return
         hit_keys.add(key)
 
         def dep(pa, pb):
-            recs, st, _ = impl_records([pa, pb])
-            return len(recs) == 2 and recs[0] != recs[1]
+            co_, st, _ = R.impl([pa, pb], wd=20)
+            return len(co_) == 2 and records_nofn(co_[0]) != records_nofn(co_[1])
         ka, _, fa = parse_case(la)
         kb, _, fb = parse_case(lb)
         name, s, ca = fa[0]
         ca, cb = set(ca), set(fb[0][2])
+        bca, bcb = ka in BYTECUT_KINDS, kb in BYTECUT_KINDS
         items = []
-        for i, ch in enumerate(s):
-            if i in ca:
-                items.append(("A", None))
-            if i in cb:
-                items.append(("B", None))
+        pa = pb = 0
+        for ch in s:
+            wa, wb = (blen(ch) if bca else 1), (blen(ch) if bcb else 1)
+            items += [("A", d) for d in range(wa) if pa + d in ca]
+            items += [("B", d) for d in range(wb) if pb + d in cb]
             items.append(("ch", ch))
+            pa += wa
+            pb += wb
 
         def build(sub):
             t, xa, xb = [], [], []
+            qa = qb = 0
+            penda, pendb = [], []
             for k, ch in sub:
                 if k == "A":
-                    xa.append(len(t))
+                    penda.append(ch)
                 elif k == "B":
-                    xb.append(len(t))
+                    pendb.append(ch)
                 else:
+                    wa, wb = (blen(ch) if bca else 1), (blen(ch) if bcb else 1)
+                    xa += [qa + (d if d < wa else 0) for d in penda]
+                    xb += [qb + (d if d < wb else 0) for d in pendb]
+                    penda, pendb = [], []
                     t.append(ch)
+                    qa += wa
+                    qb += wb
             t = "".join(t)
             return case_line(ka, mode, [(name, t, xa)]), case_line(kb, mode, [(name, t, xb)])
         small = C.ddmin(items, lambda sub: dep(*build(sub)), max_tests=200)
@@ -493,20 +667,23 @@ def run(ctx):
             sa, sb = la, lb
         co, st, _ = R.impl([sa, sb], wd=20)
         content = parse_case(sa)[2][0][1]
-        w = witness_unstable(mode, content)
+        w = witness_unstable(mode, content) if layer_of(sa, sb) == "rio" else None
         sig = "regex-rs-unstable" if (w and is_regex(mode)) else None
-        what = "same bytes, different records (mode %s, input %r): chunking A cuts=%r -> %s ; chunking B cuts=%r -> %s%s" % (
-            mode, content, parse_case(sa)[2][0][2], records_only(co[0])[:200], parse_case(sb)[2][0][2], records_only(co[1])[:200],
+        k1, k2 = parse_case(sa)[0], parse_case(sb)[0]
+        what = "same bytes, different records (mode %s, input %r = bytes %s): schedule A (kind %s, cuts=%r) -> %s ; schedule B (kind %s, cuts=%r) -> %s%s" % (
+            mode, content, hx(content), k1, parse_case(sa)[2][0][2], records_only(co[0])[:200] if co else "<none>", k2, parse_case(sb)[2][0][2],
+            records_only(co[1])[:200] if len(co) > 1 else "<none>",
             (" ; the RS matcher is not stable on this text (Lean matcher): " + w) if w else "")
-        oracle_hits.append((sig, what, "# chunk dependence on the real code: both lines carry the same bytes\n" + sa + "\n" + sb + "\n# impl:\n" + "\n".join(co) + "\n"))
+        what += " [kind %s: %s]" % (k1, LAYERS.get(k1, "?")) + ("" if k2 == k1 else " [kind %s: %s]" % (k2, LAYERS.get(k2, "?")))
+        oracle_hits.append((sig, what, "# schedule dependence on the real code: both lines carry the same bytes\n" + sa + "\n" + sb + "\n# impl:\n" + "\n".join(co) + "\n"))
 
     def oracle_reference(line, implrec):
         """newline / single-character mode: records, NR, FNR, FILENAME against the python reference"""
         kind, mode, files = parse_case(line)
         exp = ref_seen(mode, files)
-        if exp is None or implrec.split() == exp or ("ref", mode) in hit_keys:
+        if exp is None or implrec.split() == exp or ("ref", layer_of(line), mode) in hit_keys:
             return
-        hit_keys.add(("ref", mode))
+        hit_keys.add(("ref", layer_of(line), mode))
 
         def bad(l):
             k2, m2, f2 = parse_case(l)
@@ -516,7 +693,7 @@ def run(ctx):
         recs, st, _ = impl_records([small])
         k2, m2, f2 = parse_case(small)
         oracle_hits.append((None, "records differ from the reference splitter (mode %s, %s): files %r: got %s expected %s" % (
-            m2, {"F": "std.c file chain", "B": "byte reader over the chunked console handler"}.get(k2, "chunked console handler"), [(n, s_, c) for n, s_, c in f2],
+            m2, "kind %s: %s" % (k2, LAYERS.get(k2, "?")), [(n, s_, c) for n, s_, c in f2],
             recs[0][:300] if recs else "<none>", " ".join(ref_seen(m2, f2))[:300]),
             "# real code vs python reference splitter\n" + small + "\n# impl:\n" + "\n".join(recs) + "\n# reference:\n" + " ".join(ref_seen(m2, f2)) + "\n"))
 
@@ -588,8 +765,7 @@ def run(ctx):
                         oracle_chunkdep(mode, groups[key][0], line)
                     groups.setdefault(key, (line, records_only(a[0])))
                     oracle_reference(line, records_only(a[0]))
-            if line.startswith("F"):
-                a, b = [mask_state(x) for x in a], [mask_state(x) for x in b]
+            a, b = canon(line, a), canon(line, b)
             if a != b:
                 bad = line
                 if is_multi(line):
@@ -627,8 +803,8 @@ def run(ctx):
                 hit_keys.add("handlers")
                 oracle_hits.append((None, "same files, different records through the chunked console handler (C), the std.c chain (F) and the byte reader (B) (mode %s): %s vs %s vs %s" % (
                     mode, recs[0][:200], recs[1][:200], recs[2][:200]), "# same files: custom chunked handler (C), std.c chain (F), getbline over the chunked handler (B)\n" + cl + "\n" + fl + "\n" + bl + "\n# impl:\n" + "\n".join(a[:3]) + "\n"))
-        am = [mask_state(x) if l.startswith("F") else x for l, x in zip([cl, fl, bl] + singles, a)]
-        bm = [mask_state(x) if l.startswith("F") else x for l, x in zip([cl, fl, bl] + singles, b)]
+        am = [canon(l, [x])[0] for l, x in zip([cl, fl, bl] + singles, a)]
+        bm = [canon(l, [x])[0] for l, x in zip([cl, fl, bl] + singles, b)]
         if am != bm or len(a) != k or len(b) != k:
             j = next((j for j in range(k) if j >= len(am) or j >= len(bm) or am[j] != bm[j]), 0)
             note_corr(([cl, fl, bl] + singles)[j], st, ce)
@@ -637,7 +813,7 @@ def run(ctx):
     ctx.log("multi-file chains done")
     # ---------------- long inputs: cut points inside CRLF, inside separators, at the 2048 edge ---------------------------------
     allmodes = STABLE_MODES + [M_ABCD, M_EOL]
-    groups = long_cases(rng, ctx.tier, allmodes)
+    groups = long_cases(rng, ctx.tier, allmodes) + straddle_cases(rng, ctx.tier)
     lines = [l for _, g in groups for l in g]
     co, st, ce = R.impl(lines)
     mo = R.model(lines)
@@ -647,18 +823,26 @@ def run(ctx):
     for mode, g in groups:
         a, b = co[i:i + len(g)], mo[i:i + len(g)]
         i += len(g)
-        bump("long:" + mode.split(":")[0][:12], len(g))
+        for l in g:
+            bump("long-%s:%s" % (l[0], mode.split(":")[0][:12]))
         ev["nontrivial"] += len(g)
         recs = [records_only(x) for x in a]
         if len(recs) == len(g):
-            j = next((j for j in range(1, len(g)) if recs[j] != recs[0]), None)
+            cmpr = [records_nofn(x) for x in a]
+            j = next((j for j in range(1, len(g)) if cmpr[j] != cmpr[0]), None)
             if j is not None:
                 oracle_chunkdep(mode, g[0], g[j])
             oracle_reference(g[0], recs[0])
-        if a != b:
+            if g[0][0] in STD_KINDS:                     # straddle group: every line against the reference splitter
+                for l, r in zip(g[1:], recs[1:]):
+                    oracle_reference(l, r)
+        a = [canon(l, [x])[0] for l, x in zip(g, a)]
+        b = [canon(l, [x])[0] for l, x in zip(g, b)]
+        if a != b or len(a) != len(g):
             j = next((j for j in range(len(g)) if j >= len(a) or j >= len(b) or a[j] != b[j]), 0)
             note_corr(g[j], st, ce)
     samples.append(lines[0][:160] + "…")
+    samples.append(groups[-1][1][0][:100] + "…")
 
     ctx.log("long inputs done")
     # ---------------- exhaustive: all chunkings of all short inputs ---------------------------------------------------------
@@ -704,13 +888,14 @@ def run(ctx):
                 ev["nontrivial"] += coverage_x(line)
                 if len(a) == k:
                     r0 = records_only(a[0])
-                    if ("chunkdep", mode) not in hit_keys:
+                    if ("chunkdep", layer_of(line), mode) not in hit_keys:
                         for j in range(1, k):
                             if records_only(a[j]) != r0:
                                 oracle_chunkdep(mode, expand_x(line, 0), expand_x(line, j))
                                 break
-                    if ("ref", mode) not in hit_keys:
+                    if ("ref", layer_of(line), mode) not in hit_keys:
                         oracle_reference(expand_x(line, 0), r0)
+                a, m = canon(line, a), canon(line, m)
                 if a != m:
                     j = next((j for j in range(k) if j >= len(a) or j >= len(m) or a[j] != m[j]), 0)
                     note_corr(expand_x(line, j), st, ce)
@@ -731,18 +916,15 @@ def run(ctx):
         def fails_corr(l):
             co, st2, _ = R.impl([l], wd=20)
             mo = R.model([l])
-            if l.startswith("F"):
-                co, mo = [mask_state(x) for x in co], [mask_state(x) for x in mo]
-            return co != mo
+            return canon(l, co) != canon(l, mo)
         small = shrink_case(line, fails_corr)
         co, st2, ce2 = R.impl([small], wd=20)
         mo = R.model([small])
-        if small.startswith("F"):
-            co, mo = [mask_state(x) for x in co], [mask_state(x) for x in mo]
+        co, mo = canon(small, co), canon(small, mo)
         kind, mode, files = parse_case(small)
         what = ("the real code and the Lean model differ (%s, mode %s) while every property oracle is clean on the real code: files %r: impl %r vs model %r "
                 "(fields r<NR>:<FNR>:<FILENAME>:<hex record>:<in.pos>:<in.len>:<in.eof>, e<in.eos>:…); %s — the model no longer describes the code, so the proofs say nothing about it") % (
-            "std.c file chain" if kind == "F" else "chunked console handler", mode, [(n, s_, c) for n, s_, c in files],
+            "kind %s: %s" % (kind, LAYERS.get(kind, "?")), mode, [(n, s_, c) for n, s_, c in files],
             " | ".join(co)[:300], " | ".join(mo)[:300], THEOREMS)
         if oracle_clean:
             ctx.problem("corr", what, "# feed to harness/readio_h.c <scratchdir> (built against the repo) and to `hawkdrv readio`\n" + small +
@@ -750,7 +932,10 @@ def run(ctx):
         else:
             ctx.log("model/implementation difference not reported separately (a property oracle already failed): " + small[:200])
 
-    rule = ("cases = corpus + multi-file chains (custom chunked handler and the real std.c chain over temp files) + long inputs (separators placed "
+    rule = ("LAYERS: kinds C/X/B/Y exercise rio.c over a custom handler (chunking in characters / bytes chosen by the case); kinds F/G exercise std.c + sio/tio over "
+            "real files; kinds P/Q/Z exercise std.c + sio/tio over a pipe whose every read(2) returns one chunk of the case's BYTE chunking (UTF-8 characters "
+            "split at every phase; straddle groups place 2- and 3-byte characters across the 2048-byte read edge of the real file and follow them with many "
+            "short records). cases = corpus + multi-file chains (custom chunked handler and the real std.c chain over temp files) + long inputs (separators placed "
             "around multiples of 2048, cut points inside CRLF / inside separators / at 2047,2048,2049, four chunkings per input) + ALL 2^(n-1) chunkings "
             "of every input up to a per-mode length bound (alphabets reduced by symmetry). Property oracles on the real code alone: same bytes under "
             "different chunkings / handlers give the same records; a chain of files equals its files read one at a time; newline and single-character "
@@ -759,7 +944,7 @@ def run(ctx):
             "inside or adjacent to a separator occurrence (exhaustive part, computed per input as 2^(n-1) - 2^(n-1-k), k = such positions) + "
             "long-input cases + multi-file chains with >= 2 files")
     return C.finish(ctx, [proof], ev["n"], ev["nontrivial"], rule, samples,
-                    extra_cov=dict(case_distribution=dist, exhaustive_inputs=len(xl), exhaustive_chunkings_skipped_for_time=state["skipped"], workers=NWORK,
+                    extra_cov=dict(layers=LAYERS, case_distribution=dist, exhaustive_inputs=len(xl), exhaustive_chunkings_skipped_for_time=state["skipped"], workers=NWORK,
                                    oracle_hits=len(oracle_hits), model_differences=len(corr_diffs)),
                     trusted=["rio.c/std.c/run.c record reading modelled by hand in HawkModel/ReadIo.lean (error returns of the handler, allocation failure, "
                              "the nrflt record filter and mixed byte/char reading are not modelled; hawk_rtx_readiobytes is the same text over bytes and is not run)",
@@ -789,7 +974,7 @@ def replay(ctx, path):
         for j in range(k):
             a = co[ci + j] if ci + j < len(co) else "<none>"
             b = mo[ci + j] if ci + j < len(mo) else "<none>"
-            if l.startswith("F"):
+            if l[0] in STD_KINDS:
                 a, b = mask_state(a), mask_state(b)
             print("%s\n  impl : %s\n  model: %s" % (l[:200], a, b))
             if a != b:
